@@ -235,6 +235,9 @@ class SqliteMap(BaseMap):
             c.execute(q, (node, lon, lat))
         except sqlite3.IntegrityError as exc:
             if ignore_doubles and "UNIQUE constraint failed: nodes.id" in str(exc):
+                # The failed insert has opened a transaction, do not leave it open (it locks the database)
+                if not no_commit:
+                    self.db.commit()
                 return
             logger.error(f"Problem with adding node {node} {loc}")
             raise exc
